@@ -5,7 +5,7 @@ from hypothesis import strategies as st
 
 # name -> type; the decorated function takes all ARGS; the condition lambda takes the ones it uses
 ARGS = {"x": "int", "n": "int", "s": "str", "xs": "ilist", "ys": "ilist", "ss": "iset", "d": "sdict", "t": "itup",
-        "o": "obj", "m": "mat", "id": "int", "G": "int", "zs": "sset"}
+        "o": "obj", "m": "mat", "id": "int", "G": "int", "zs": "sset", "q": "qobj"}
 CLOSURE = {"C": "int", "CS": "str", "CL": "ilist", "H": "int"}  # H exists as a module global too (closure wins)
 GLOBALS = {"G": "int", "GS": "str", "GL": "ilist", "Y": "int"}
 EXTRA_ARGS = {"Y": "int"}  # a parameter of the function that the condition never takes; collides with the global Y
@@ -108,10 +108,27 @@ class Gen:
     def t_bool(self, depth):
         if depth <= 0:
             return "%s %s %s" % (self.t_int(0), self.pick(CMP_OPS), self.t_int(0))
-        k = self.draw(st.integers(0, 15))
+        k = self.draw(st.integers(0, 16))
         if k == 12:
             nm = self.name("int")
             return self.pick(["(%s is None)", "(ident(%s) is None)", "(%s is not None)"]) % nm
+        if k == 16:
+            # all() over a generator with two or three filters on one `for`: the reported example must be the first
+            # item that passes ALL the filters and falsifies the element
+            self.features.add("all-any")
+            self.features.add("all-multi-if")
+            tgt = self.pick([t for t in ["y", "z", "v"] if t not in self.targets])
+            it = self.expr("ilist", depth - 1)
+            saved = dict(self.targets)
+            self.targets[tgt] = "int"
+            try:
+                conds = "".join(" if %s %s %s" % (tgt, self.pick(["!=", ">", "<", ">=", "%"]), self.t_int(0))
+                                for _ in range(self.draw(st.integers(2, 3))))
+                conds = conds.replace("% ", "% 2 == ")
+                elt = "%s %s %s" % (tgt, self.pick(CMP_OPS), self.t_int(0))
+            finally:
+                self.targets = saved
+            return "all(%s for %s in %s%s)" % (elt, tgt, it, conds)
         if k == 15:
             # reflexive comparison: both sides equal, so <=, >=, == hold and <, >, != do not
             e = self.expr("int", depth - 1) if not self.probes else self.name("int")
@@ -306,6 +323,10 @@ GUARDED = [
     ("(n and 12 // n) or xs[n] > {k}", ["n", "xs"]),
     ("ident(n != 0 and 10 // n > {k})", ["n"]),
     ("ident(xs and xs[0]) is None", ["xs"]),
+    # comparisons whose results are falsy objects other than the singleton False (numpy-like)
+    ("mkq(0) < q < mkq(10 // q.v)", ["q"]),
+    ("mkq({k}) <= q <= mkq(10 // q.v) < mkq(100)", ["q"]),
+    ("ident(mkq(1) > q > mkq(10 % q.v))", ["q"]),
 ]
 
 
@@ -332,6 +353,7 @@ def st_inputs(draw, long_values=None):
         "id": draw(st.sampled_from([None, 0, 3, 4])), "Y": draw(st.sampled_from([-1000, 7, 10])),
         "G": draw(st.sampled_from([None, 5, 6, -2])),
         "zs": sorted(draw(st.sets(st.text(ALPHABET, min_size=1, max_size=3), max_size=5))),
+        "q": draw(st.sampled_from([0, 0, 1, 3, -2, 20])),
     }
 
 
@@ -346,6 +368,9 @@ def build_inputs(desc):
     out = dict(desc)
     out.setdefault("G", 5)  # cases recorded before the parameter G existed
     out["zs"] = set(desc.get("zs", []))
+    from vf.exprlib import Q
+
+    out["q"] = Q(desc.get("q", 0))
     out["ss"] = set(desc["ss"])
     out["t"] = tuple(desc["t"])
     out["o"] = node(desc["o"])
